@@ -568,6 +568,7 @@ pub const PG_CRATES: usize = 8;
 
 fn emit_workspace(out: &Path, items: &[CorpusItem]) -> Result<(), String> {
     let verif = std::env::var("VERIF_DIR").unwrap_or_else(|_| "/verif".into());
+    let repo = std::env::var("VERIF_REPO").unwrap_or_else(|_| "/repo".into());
     let n_crates = PG_CRATES.min(items.len().max(1));
     let mut members = Vec::new();
     for c in 0..n_crates {
@@ -575,7 +576,7 @@ fn emit_workspace(out: &Path, items: &[CorpusItem]) -> Result<(), String> {
         let dir = out.join(&name);
         std::fs::create_dir_all(dir.join("src")).map_err(|e| e.to_string())?;
         write_if_changed(&dir.join("Cargo.toml"), &format!(
-                "[package]\nname = \"{name}\"\nversion = \"0.1.0\"\nedition = \"2024\"\n\n[dependencies]\neqlog-runtime = {{ path = \"/repo/eqlog-runtime\" }}\nmdrv = {{ path = \"{verif}/modelsim/mdrv\" }}\n"
+                "[package]\nname = \"{name}\"\nversion = \"0.1.0\"\nedition = \"2024\"\n\n[dependencies]\neqlog-runtime = {{ path = \"{repo}/eqlog-runtime\" }}\nmdrv = {{ path = \"{verif}/modelsim/mdrv\" }}\n"
             ),
         )?;
         let mut lib = String::from("#![allow(warnings)]\n");
@@ -635,6 +636,7 @@ fn emit_workspace(out: &Path, items: &[CorpusItem]) -> Result<(), String> {
 /// rustc per rule component), wrapped into a crate that links the component libraries.
 fn comp_corpus(seed: u64, first: usize, count: usize, out: &Path, runtime_rlib: &Path) -> Result<(), String> {
     let verif = std::env::var("VERIF_DIR").unwrap_or_else(|_| "/verif".into());
+    let repo = std::env::var("VERIF_REPO").unwrap_or_else(|_| "/repo".into());
     let gen_dir = out.join("gen");
     std::fs::create_dir_all(&gen_dir).map_err(|e| e.to_string())?;
     let mut items: Vec<CorpusItem> = Vec::new();
@@ -687,7 +689,7 @@ fn comp_corpus(seed: u64, first: usize, count: usize, out: &Path, runtime_rlib: 
     write_if_changed(
         &dir.join("Cargo.toml"),
         &format!(
-            "[package]\nname = \"pgc\"\nversion = \"0.1.0\"\nedition = \"2024\"\nbuild = \"build.rs\"\n\n[dependencies]\neqlog-runtime = {{ path = \"/repo/eqlog-runtime\" }}\nmdrv = {{ path = \"{verif}/modelsim/mdrv\" }}\n"
+            "[package]\nname = \"pgc\"\nversion = \"0.1.0\"\nedition = \"2024\"\nbuild = \"build.rs\"\n\n[dependencies]\neqlog-runtime = {{ path = \"{repo}/eqlog-runtime\" }}\nmdrv = {{ path = \"{verif}/modelsim/mdrv\" }}\n"
         ),
     )?;
     let mut build_rs = String::from("fn main() {\n");
